@@ -125,7 +125,7 @@ func c19r2(c *Ctx, id string) {
 			continue
 		}
 		c.see(fn)
-		var bad []string
+		var bad, badCtx []string
 		nSel := 0
 		// the function together with the helpers it calls synchronously; the round is judged on its own, not again as
 		// part of run
@@ -153,8 +153,13 @@ func c19r2(c *Ctx, id string) {
 				nSel++
 				has := false
 				for _, st := range x.States {
-					if strings.HasSuffix(w.Origin(st.Chan), ".Done)()") {
+					if o := w.Origin(st.Chan); strings.HasSuffix(o, ".Done)()") {
 						has = true
+						// the stop context itself, handed down unchanged: a derived context (WithTimeout, WithDeadline, a
+						// second WithCancel) has an expiry or cancellation of its own that the wait cannot tell from Stop
+						if !(strings.HasPrefix(o, "call(param(") && strings.Count(o, "(") == 3) {
+							badCtx = append(badCtx, o+" @"+w.pos(in.Pos()))
+						}
 					}
 				}
 				if !has || !x.Blocking {
@@ -173,6 +178,21 @@ func c19r2(c *Ctx, id string) {
 				}
 			}
 		})
+		// helpers inside the unit receive the same context
+		for _, f := range fns {
+			for _, g := range fns {
+				for _, ci := range callsIn(f, g) {
+					for _, a := range ci.Common().Args {
+						if types.TypeString(a.Type(), nil) == "context.Context" {
+							if o := w.Origin(a); !strings.HasPrefix(o, "param(") {
+								badCtx = append(badCtx, "helper "+fname(g)+" is handed "+o+" @"+w.pos(ci.Pos()))
+							}
+						}
+					}
+				}
+			}
+		}
+		c.Check(len(badCtx) == 0, id, "stop-context@"+fname(fn), fn.Pos(), "every wait selects on the Done() of the context parameter handed down from Start (the one Stop cancels)", "a wait selects on a derived context whose own expiry ends the round as if Stop had been called: "+strings.Join(badCtx, ", "))
 		c.Check(len(bad) == 0 && nSel == 1, id, "waits@"+fname(fn), fn.Pos(), "the only blocking construct is a select with a ctx.Done() case", "uncancellable wait: "+strings.Join(bad, ", ")+fmt.Sprintf(" (%d selects)", nSel))
 	}
 	// run: a cancelled context ends the loop
